@@ -200,12 +200,12 @@ CLAIMS['C16'] = dict(category='proof', ref='5 Core F, 8 C16',
     technique='machine-checked proof in Lean 4 (invariants + termination measure of a concurrent small-step program, for all schedules) + fault-sequence correspondence on the real broker')
 
 CLAIMS['C14'] = dict(category='proof', ref='5 Core D, 8 C14',
-    text="Lean 4 theorems over all thread programs and all schedules of the small-step model of service/buffer.go (one step per shared access, per byte copied): safety invariant preserved by every step; the bytes the consumer obtained are exactly the source stream prefix and lie below the producer cursor; no producer step writes a cell of the consumer's uncommitted window; model tied to the code by schedules replayed on the real buffer (yield hooks), lock-structure facts by decide",
+    text="Lean 4 theorems over all thread programs and all schedules of the small-step model of service/buffer.go (one step per shared access, per byte copied; ReadFrom - repaired by 8f682d1 to wait for one free byte and read into the free contiguous part of the ring - modelled whole with an arbitrary reader script): safety invariant preserved by every step; the bytes the consumer obtained are exactly the source stream prefix and lie below the producer cursor; no producer step writes a cell of the consumer's uncommitted window; the slice ReadFrom hands its reader lies in [pseq, cseq+size) and its WriteCommit finds its space (C14_readfrom_slice_free); model tied to the code by schedules replayed on the real buffer (yield hooks; ReadFrom scheduled at its marks with less than a read block free), lock-structure facts by decide",
     technique='machine-checked proof in Lean 4 (invariants of a concurrent small-step program, for all schedules) + differential correspondence of schedules on the real buffer',
     note='Trusted: Lean kernel; axioms propext/Classical.choice/Quot.sound only; Go harness (model-guided scheduler at the verifYield marks) + line protocol + fact extractor; Go runtime semantics assumed by the model: sync.Mutex, sync.Cond, sequentially consistent atomics, scheduler fairness for liveness (see evidence.assumptions, NOTES-ring.md)')
 
 CLAIMS['C15'] = dict(category='proof', ref='5 Core D, 8 C15',
-    text='Lean 4 theorems over all programs and schedules of the repaired buffer: a mutex is held only inside its critical section (never by a returned thread), no lost wake-up (a parked waiter whose condition is met has a pending broadcaster), Close is a straight line of 7 own steps blocked only by a held mutex whose holder is enabled and releases within 3 steps, done exits every wait loop, a termination measure strictly decreasing with every enabled step (no livelock; at most mu(init) enabled steps in any schedule), and at quiescence every unfinished call waits legitimately (all returned once Close was called); scheduler fairness is the remaining hypothesis; tie as C14 with the lock probe compared after every step and a fair finish phase (Close, later calls) on the real buffer',
+    text='Lean 4 theorems over all programs and schedules of the repaired buffer: a mutex is held only inside its critical section (never by a returned thread), no lost wake-up (a parked waiter whose condition is met has a pending broadcaster), Close is a straight line of 7 own steps blocked only by a held mutex whose holder is enabled and releases within 3 steps, done exits every wait loop, a termination measure strictly decreasing with every enabled step (no livelock; at most mu(init) enabled steps in any schedule), and at quiescence every unfinished call waits legitimately (all returned once Close was called); ReadFrom (8f682d1) never hands its reader an empty slice, its WriteCommit never waits, and it is kept from reading only by a completely full, open ring (C15_ReadFrom_reads_nonempty, C15_ReadFrom_waits_only_when_full; before the repair: by less than a read block free, finding F3); scheduler fairness is the remaining hypothesis; tie as C14 with the lock probe compared after every step and a fair finish phase (Close, later calls) on the real buffer',
     technique='machine-checked proof in Lean 4 (invariants of a concurrent small-step program, for all schedules) + differential correspondence of schedules on the real buffer',
     note='Trusted: Lean kernel; axioms propext/Classical.choice/Quot.sound only; Go harness (model-guided scheduler at the verifYield marks) + line protocol + fact extractor; Go runtime semantics assumed by the model: sync.Mutex, sync.Cond, sequentially consistent atomics, scheduler fairness for liveness (see evidence.assumptions, NOTES-ring.md)')
 CLAIMS['C18'] = dict(category='other', ref='5 Core G, 8 C18',
@@ -296,7 +296,8 @@ CLAIMS['C05'] = dict(category='proof', ref='5 Core A/E/F, 8 C05',
          "contain (decoders, framing functions) and cannot exhibit one in code they do not model (logging, TLS, the websocket bridge, the Go runtime); "
          "the broker model takes one event as one atomic step, so 'all timings of the teardown relative to publishes' is covered by event order in the theorems "
          "and by the race event (unserialised writes) plus the C16/C18 checks on the real code, not by a theorem about interleavings; the byte-to-event "
-         "translation is shared by the model and the reference stream (what the decoders accept is C03/C04); a packet of more than ring size - 8 KiB sent in "
-         "pieces can wedge its own connection (F3, C16) and is kept out of the generators.",
+         "translation is shared by the model and the reference stream (what the decoders accept is C03/C04). Packets that need the last 8 KiB read block of the "
+         "ring (ring size - 8 KiB < length <= ring size), whole or split across events, are ordinary generator cases since the repair of F3 (8f682d1; "
+         "before it they could wedge their own connection, C16).",
     technique='machine-checked proof in Lean 4 (framing totality and bounds over all byte streams; isolation and lifting on the sequential broker model) + differential correspondence of byte streams on the real broker (real code vs code-shaped model vs reference broker)',
     note='Trusted: Lean kernel; axioms propext/Classical.choice/Quot.sound only; Go harness (raw clients over net.Pipe, PINGREQ barriers, frame scanner used only to know when to wait) + line protocol + fact extractor; Go runtime semantics assumed by the models (slices, append, binary.Uvarint, net.Conn reads, recover); see evidence.assumptions')
